@@ -371,6 +371,17 @@ def partial_sites(repo, fn, include_nested=True):
         if vec is not None and c.args and not any(k.arg == "otypes" for k in vec.keywords):
             out.append(Site(f, c, c.args[0], "numpy.vectorize(f)(a)"))
             continue
+        # V = np.array(list) without dtype, V then used as an index: an EMPTY list gives a float64 array, which is not a
+        # valid index (IndexError: arrays used as indices must be of integer (or boolean) type)
+        if d in ("numpy.array", "numpy.asarray") and len(c.args) == 1 and not any(k.arg == "dtype" for k in c.keywords):
+            par = f.module.parent.get(c)
+            if isinstance(par, ast.Assign) and len(par.targets) == 1 and isinstance(par.targets[0], ast.Name):
+                v = par.targets[0].id
+                used_as_index = any(isinstance(n, ast.Subscript) and isinstance(n.slice, ast.Name) and n.slice.id == v
+                                    for n in body_nodes(f.node))
+                if used_as_index:
+                    out.append(Site(f, c, c.args[0], "index = numpy.array(list) without dtype"))
+                    continue
         # Counter(a).most_common(1)[0]
         if isinstance(func, ast.Attribute) and func.attr == "most_common" and isinstance(func.value, ast.Call) \
                 and repo.dotted(f, func.value.func) == "collections.Counter" and func.value.args:
